@@ -7,7 +7,7 @@
    Caddy's lexer, Dispenser cursor and module loader are not modelled, "loads and provisions" is
    checked by the engine only.  Leaf equations are proved for every modelled module
    ([mleaf_proved] = [mleaf_ok], [hleaf_proved] = [hleaf_ok]); not modelled (engine oracle only): request matchers other than host/path/method/not inside http,
-   cert_selection / client_auth / insecure_secrets_log of the tls handler, tls_trust_pool, exponent-form rates. *)
+   client_auth / insecure_secrets_log and cert_selection's public_key_algorithm in the tls handler, tls_trust_pool, exponent-form rates. *)
 From Coq Require Import List ZArith NArith Bool String.
 From L4.model Require Import Caddyfile CaddyfileLeaves.
 From L4.proofs Require Import CaddyfileProofs CaddyfileLeafProofs.
@@ -67,6 +67,19 @@ Proof. exact mleaf_eq_proved. Qed.
 Theorem C15_handler_leaves : forall x, hleaf_proved x = true ->
   hleaf_parse (hleaf_name x) (hleaf_seg x) = Some (hleaf_json x).
 Proof. exact hleaf_eq_proved. Qed.
+
+(* repeated list options append: an appending option written on several lines, each with one or more
+   values, yields the concatenation of the values in line order (the model's reading of every
+   "x = append(x, d.RemainingArgs()...)" option) *)
+Theorem C15_repeated_list_options_append : forall k L (ls : list (list string)),
+  occurrences k L = ls -> forallb (fun l => negb (is_nil l)) ls = true -> multi k L = Some (List.concat ls).
+Proof. exact multi_occ_lines. Qed.
+(* cert_selection: all_tags / any_tag / serial_number / subject_organization, each on any number of lines *)
+Theorem C15_cert_selection_lines_accumulate : forall cs,
+  forallb (fun l => negb (is_nil l)) (cs_all_tags cs) && forallb (fun l => negb (is_nil l)) (cs_any_tag cs) &&
+  forallb (fun l => negb (is_nil l)) (cs_serials cs) && forallb (fun l => negb (is_nil l)) (cs_orgs cs) = true ->
+  parse_cert_sel (blockL "cert_selection" [] (cert_sel_fields cs)) = Some (cert_sel_json cs).
+Proof. exact cert_sel_eq. Qed.
 
 (* value syntax *)
 Theorem C15_duration_roundtrip : forall d, dur_ok d = true -> parse_duration (print_dur d) = Some (dur_ns d).
@@ -143,7 +156,8 @@ Definition ex_cfg2 : configT :=
           ("@h", true, [MLeaf (MHttp false [HmSimple (HkHost, ["example.com"]); HmNot true [(HkPath, ["/admin*"])]])]);
           ("@q", true, [MLeaf (MTls true true [TAlpn ["h3"]])])]
          [(["@t"], [HLeaf (HTls [ConnPolicy ["h2"] [] ["x25519"] (Some "example.com") false None None ["tls1.2"; "tls1.3"]
-                                    (Some (true, [TLocalIP [RPrivate]]))]);
+                                    (Some (true, [TLocalIP [RPrivate]]))
+                                    (Some (CertSel [["a"; "b"]; ["c"]] [] [[1001%N; 1002%N]; [1004%N]] [["Org"]]))]);
                     HLeaf (HThrottle None None (Some (RDec 1 "5")) None (Some (RInt 100)));
                     HLeaf HEcho]);
           (["@h"; "@q"], [HLeaf HEcho])])]].
@@ -184,3 +198,5 @@ Print Assumptions C15_struct_roundtrip_http.
 Print Assumptions C15_server_numbering.
 Print Assumptions C15_blocks_merge.
 Print Assumptions C15_nonvacuous2.
+Print Assumptions C15_repeated_list_options_append.
+Print Assumptions C15_cert_selection_lines_accumulate.
